@@ -118,6 +118,13 @@ def validate_http(out: bytes, head=False):
         return "second HTTP status line inside the body"
     if head and body and status == 200:
         return "successful HEAD response carries a body"
+    # a declared length is a promise: a client stops reading there
+    for n, v in headers:
+        if n.lower() == b"content-length":
+            if not re.fullmatch(rb"\s*\d+\s*", v):
+                return "Content-Length %r is not a number" % v
+            if not head and int(v) != len(body):
+                return "Content-Length says %d, the body has %d bytes" % (int(v), len(body))
     return None
 
 
